@@ -474,18 +474,19 @@ func (v *Verifier) execIf(s *State, x *ast.IfStmt) []*Flow {
 	if s.dead {
 		return nil
 	}
+	c = s.knownCond(c)
 	var out []*Flow
 	if !c.isFalse() {
 		s1 := s
 		if !c.isTrue() {
 			s1 = s.clone()
-			s1.assume(c)
+			s1.assumeBranch(c)
 		}
 		out = append(out, v.execBlock(s1, x.Body.List)...)
 	}
 	if !c.isTrue() {
 		s2 := s
-		s2.assume(Not(c))
+		s2.assumeBranch(Not(c))
 		if x.Else != nil {
 			out = append(out, v.execStmt(s2, x.Else)...)
 		} else {
@@ -530,10 +531,10 @@ func (v *Verifier) execSwitch(s *State, x *ast.SwitchStmt) []*Flow {
 		c := Or(conds...)
 		if !c.isFalse() {
 			s1 := cur.clone()
-			s1.assume(c)
+			s1.assumeBranch(c)
 			out = append(out, v.switchBody(s1, cc)...)
 		}
-		cur.assume(Not(c))
+		cur.assumeBranch(Not(c))
 		if cur.dead {
 			break
 		}
@@ -606,7 +607,7 @@ func (v *Verifier) execTypeSwitch(s *State, x *ast.TypeSwitchStmt) []*Flow {
 		}
 		c := Or(conds...)
 		s1 := cur.clone()
-		s1.assume(c)
+		s1.assumeBranch(c)
 		if obj := v.info.Implicits[cc]; obj != nil {
 			if len(cc.List) == 1 {
 				if id, ok := cc.List[0].(*ast.Ident); ok && id.Name == "nil" {
@@ -619,7 +620,7 @@ func (v *Verifier) execTypeSwitch(s *State, x *ast.TypeSwitchStmt) []*Flow {
 			}
 		}
 		out = append(out, v.switchBody(s1, cc)...)
-		cur.assume(Not(c))
+		cur.assumeBranch(Not(c))
 	}
 	if dflt != nil {
 		if obj := v.info.Implicits[dflt]; obj != nil {
@@ -882,11 +883,11 @@ func (v *Verifier) execLoop(s *State, lp *loopParts, node ast.Node) []*Flow {
 	if lp.cond != nil {
 		cond = lp.cond(h)
 		ce := lp.cond(exit)
-		exit.assume(Not(ce))
+		exit.assumeBranch(Not(ce))
 		if !exit.dead {
 			out = append(out, &Flow{St: exit, Kind: flowNormal})
 		}
-		h.assume(cond)
+		h.assumeBranch(cond)
 	}
 	if h.dead {
 		return out
@@ -960,7 +961,7 @@ func (v *Verifier) execUnrolled(s *State, lp *loopParts, ls *loopSpec) []*Flow {
 				if !c.isFalse() {
 					ex = st.clone()
 				}
-				ex.assume(Not(c))
+				ex.assumeBranch(Not(c))
 				if !ex.dead {
 					out = append(out, &Flow{St: ex, Kind: flowNormal})
 				}
@@ -973,7 +974,7 @@ func (v *Verifier) execUnrolled(s *State, lp *loopParts, ls *loopSpec) []*Flow {
 				v.oblige(st, "unwind", fmt.Sprintf("loop%d", ls.ord), Not(c), lp.node.Pos(), fmt.Sprintf("loop finishes within %d iterations", ls.unroll))
 				continue
 			}
-			st.assume(c)
+			st.assumeBranch(c)
 			if lp.pre != nil {
 				lp.pre(st)
 			}
